@@ -8,36 +8,41 @@ From Verif Require Import Cancel.Model Cancel.Cases Cancel.Proofs.
 
 (** The property at full strength (false of the faithful model today, see the [_refuted] theorems):
     in every reachable state of every session, after stop() every thread performs at most one more
-    operation and, unless it sits in a host call, exits once scheduled often enough. *)
+    operation and, unless it sits in a host call, exits once scheduled often enough.
+    (The first half is proved since the repair of the init-list defect: C09_gate_partial.) *)
 Definition C09_statement : Prop := C09_contract.
 (** ... "from then on", i.e. also while the host goes on using the interpreter. *)
 Definition C09_statement_session : Prop := C09_contract_session.
 
 (** The gate: every program table F, every history h of host actions and scheduling decisions
-    (any number of earlier evaluations, cancelled or not), every schedule and oracle after the
-    stop, every thread u — provided no init function / main is still waiting to be started.
+    (any number of earlier evaluations, cancelled or not; init functions and main pending or not),
+    every schedule and oracle after the stop, every thread u.
     At most one more operation, hence at most one more visible effect; goroutines started after
     the stop do nothing; every thread that is not stuck in a blocking operation that cannot see
-    this cancellation has exited after (stack depth + 2) scheduling decisions. Covers busy loops,
-    recursion, function values, goroutine trees and every blocking construct (instructions
-    Call, CallClos, Go, GoClos, Jmp, Br, Block). Proved by induction over the schedule. *)
+    this cancellation has exited after (stack depth + 2 * pending phases + 2) scheduling decisions.
+    Covers busy loops, recursion, function values, goroutine trees, the init list and every blocking
+    construct (instructions Call, CallClos, Go, GoClos, Jmp, Br, Block; phases PRoot, PFun).
+    Proved by induction over the schedule. Since the repair of the init-list defect
+    (interp.run: newFrame(cf, n, cf.runid())) there is no side condition on pending phases; what
+    keeps the theorem partial is the hypothesis [stuck ... = false] of the exit clause, which is
+    stronger than "not in a host call" (see C09_stalechan_refuted). *)
 Theorem C09_gate_partial :
   forall F h sched u,
     let s1 := run F fresh h in
     let s2 := steps F (do_action F s1 AStop) sched in
-    no_pending s1 = true ->
     evs u (log s2) <= evs u (log s1) + 1
     /\ tks u (log s2) <= tks u (log s1) + 1
     /\ (length (threads s1) <= u -> evs u (log s2) <= evs u (log s1))
     /\ (forall th, nth_error (threads s1) u = Some th -> stuck F (do_action F s1 AStop) u = false ->
-          length (stack th) + 2 <= occ u sched -> exited s2 u = true).
+          length (stack th) + 2 * length (phases th) + 2 <= occ u sched -> exited s2 u = true).
 Proof. exact gate_partial. Qed.
 Print Assumptions C09_gate_partial.
 
 Theorem C09_gate_side_condition_inhabited :
   let s1 := run F_init fresh (session P_main_only ++ alone 0 8) in
   let s2 := steps F_init (do_action F_init s1 AStop) (repeat (0, false) 6) in
-  no_pending s1 = true /\ tks 0 (log s1) = 1 /\ tks 0 (log s2) = 2 /\ exited s2 0 = true.
+  stuck F_init (do_action F_init s1 AStop) 0 = false
+  /\ tks 0 (log s1) = 1 /\ tks 0 (log s2) = 2 /\ exited s2 0 = true.
 Proof. exact gate_partial_inhabited. Qed.
 Print Assumptions C09_gate_side_condition_inhabited.
 
@@ -47,20 +52,23 @@ Theorem C09_generations_bounded : forall F h, inv (run F fresh h).
 Proof. exact inv_run. Qed.
 Print Assumptions C09_generations_bounded.
 
-(** Refutations of the full statement on the faithful model, each replayed on the implementation
-    by the harness (regions "init-list", "root-revival", "expired", "stale-done"). *)
-Theorem C09_initlist_refuted :
+(** Regression (finding C09-init-list, repaired): the former witness — cancel inside the first
+    init() while a second init() and main() are pending — now stops: the one tick in flight, then
+    nothing, and the thread exits. Before the repair the faithful model ticked [1; 2; 2; 3; 3; 3]. *)
+Theorem C09_initlist_regression :
   let s1 := run F_init fresh H_init in
   let s2 := steps F_init (do_action F_init s1 AStop) (repeat (0, false) 40) in
   no_pending s1 = false
-  /\ ticks_of (new_events s1 s2) = [1; 2; 2; 3; 3; 3]
-  /\ evs 0 (log s2) = evs 0 (log s1) + 6
+  /\ ticks_of (new_events s1 s2) = [1]
+  /\ evs 0 (log s2) = evs 0 (log s1) + 1
   /\ exited s2 0 = true.
-Proof. exact initlist_refuted. Qed.
-Print Assumptions C09_initlist_refuted.
+Proof. exact initlist_regression. Qed.
+Print Assumptions C09_initlist_regression.
 
+(** Refutations of the full statement on the faithful model, each replayed on the implementation
+    by the harness (regions "root-revival", "expired", "stale-done"). *)
 Theorem C09_statement_refuted : ~ C09_statement.
-Proof. exact contract_refuted. Qed.
+Proof. exact contract_exits_refuted. Qed.
 Print Assumptions C09_statement_refuted.
 
 Theorem C09_rootframe_refuted :
